@@ -159,6 +159,7 @@ inductive Op where
   | adDrop (a : String)                     -- the adapter is dropped
   | closeUnder                              -- drop the scope / collector guard beneath the still-open local spans
   | collectUnder (x : String)               -- `collector.collect()` while local spans recorded in it are still open
+  | unwind                                  -- a panic unwinds through the thread's guards and is caught
 deriving Repr, Inhabited
 
 structure Stats where
@@ -684,6 +685,10 @@ def exec (s : Sys) (t : Nat) (op : Op) : Sys × Obs :=
       | none => (s, .ok)
   | .closeUnder => s.closeUnder t
   | .collectUnder x => s.collectUnder t x
+  | .unwind =>
+    -- unwinding drops the guards newest-first, exactly as a normal return would
+    let s := th.guards.foldl (fun s g => s.closeGuard t g) s
+    (s.setTh t { s.th t with guards := [] }, .ok)
 
 /-- a program: operations tagged with the logical thread that performs them -/
 abbrev Program := List (Nat × Op)
